@@ -18,7 +18,7 @@ res={}
 p=f'{V}/seeded/RESULTS.txt'
 if os.path.exists(p):
     for l in open(p):
-        m=re.match(r'(C\d\d-\d): exit=(\d) violations=(\d+) ?(.*)',l.strip())
+        m=re.match(r'(C\d\d-\d+): exit=(\d) violations=(\d+) ?(.*)',l.strip())
         if m: res[m.group(1)]=(m.group(2),m.group(3),m.group(4))
 srows=["| change | what it does (one line) | result | first failing obligation |","|----|----|----|----|"]
 missing={"C05-1":"the millisecond wheel's hand-over to the second wheel is not under contract: the bucket's entries live in the same element map that `AddTimeOut` may write, so facts about the remaining entries do not survive the call (needs object-granular frames on arrays)"}
